@@ -987,6 +987,31 @@ def m_set(x=()):
     return set(xs)
 
 
+def mk_dict(pairs):
+    """dict display / comprehension: keys that carry symbolic parts are compared through the solver (python would
+    hash the proxies by identity and silently keep duplicates apart)"""
+    pairs = list(pairs)
+    if not any(isinstance(k, Sym) or deep_sym(k) for k, _ in pairs):
+        return dict(pairs)
+    keys, vals = [], []
+    for k, v in pairs:
+        for i, k0 in enumerate(keys):
+            if truth(compare('==', k0, k)):
+                vals[i] = v
+                break
+        else:
+            keys.append(k)
+            vals.append(v)
+    return dict(zip(keys, vals))
+
+
+def mk_set(items):
+    items = list(items)
+    if not any(isinstance(x, Sym) or deep_sym(x) for x in items):
+        return set(items)
+    return m_set(items)
+
+
 class SymSet(list):
     """set whose members may be symbolic: a de-duplicated list (membership decided through the solver)"""
     def pop(self):
